@@ -145,7 +145,10 @@ func builtinNumberToLocaleString(call FunctionCall) Value {
 	locale := call.Argument(0)
 	lang := defaultLanguage
 	if locale.IsDefined() {
-		lang = language.MustParse(locale.string())
+		var err error
+		if lang, err = language.Parse(locale.string()); err != nil {
+			panic(call.runtime.panicRangeError("Number.toLocaleString: invalid language tag: " + locale.string()))
+		}
 	}
 
 	p := message.NewPrinter(lang)
